@@ -19,7 +19,7 @@ RULE = ('(1) Every path of the C16 choice trees: mass of the fragments added by 
         'every weight vector handed to the RNG is zero exactly where the reactivity table is zero, the chosen site / partner '
         'has non-zero (conditional) reactivity; terminal rules on the final descriptor lists. (2) Histories with the real '
         'RNG: breadth-first over sequences (depth<=3) of {construct(seed s)+sample(w), foreign RNG draw, construct another '
-        'sampler, sample an older sampler}; every construct+sample unit must return the fresh-process reference molecule '
+        'sampler, construct a sampler over other fragments with the same names, sample an older sampler}; every construct+sample unit must return the fresh-process reference molecule '
         'for (s, w), and the references must agree across PYTHONHASHSEED values. Non-trivial = >=1 growth step.')
 ASSUMPTIONS = c16.ASSUMPTIONS + [
     'atomic masses are taken from pysmiles.PTE (trusted); hydrogens of a fragment mass = R-valence hydrogens of the isolated fragment',
@@ -137,6 +137,9 @@ from mc.props import c16
 c = c16.CONFIGS[%(config)r]
 out = {}
 with repo.quiet():
+    if %(alien_first)r:
+        # the very first sampler of this process is one over other fragments with the same names
+        c16.make_sampler(dict(c, frag=c['frag'].replace('C', 'CC')), seed=5)
     for s in (1, 2):
         for w in %(targets)r:
             try:
@@ -155,9 +158,18 @@ def seed_machine(config, hashseeds):
     c = c16.CONFIGS[config]
     targets = sorted(c['targets'])[-2:]
     verif = os.path.dirname(os.path.dirname(os.path.dirname(os.path.abspath(__file__))))
-    script = REF_SCRIPT % {'verif': verif, 'config': config, 'targets': targets}
+    script = REF_SCRIPT % {'verif': verif, 'config': config, 'targets': targets, 'alien_first': False}
     refs = {hs: own.fresh(script, hs) for hs in hashseeds}
+    if c['all_atom'] and not c['masses']:
+        refs['alien-first'] = own.fresh(REF_SCRIPT % {'verif': verif, 'config': config, 'targets': targets, 'alien_first': True},
+                                        hashseeds[0])
     ops = [('U', s, w) for s in (1, 2) for w in targets] + [('F',), ('N',), ('O',)]
+    alien = None
+    if c['all_atom'] and not c['masses']:
+        # a sampler over fragments with the SAME names but other structures (every aliphatic carbon doubled), built
+        # without explicit masses: nothing it computes may reach the samplers constructed afterwards
+        alien = dict(c, frag=c['frag'].replace('C', 'CC'))
+        ops.append(('M',))
 
     def replay(hist):
         """fresh objects, operations replayed with the real RNG; returns list of outputs of U operations"""
@@ -182,6 +194,8 @@ def seed_machine(config, hashseeds):
                     older.sample(targets[0], start_fragment=c['start'])
                 except (IndexError, ValueError, OSError, KeyError):
                     pass
+            elif op[0] == 'M':
+                c16.make_sampler(alien, seed=5)
         return outs
     return refs, ops, replay
 
@@ -191,7 +205,10 @@ def run_seedhist(task, R):
     base = refs[task['hashseeds'][0]]
     for hs, r in refs.items():
         inp = {'kind': 'seedhist-ref', 'config': task['config'], 'hashseed': hs}
-        if r != base:
+        if r != base and hs == 'alien-first':
+            diff = [k for k in base if base[k] != r.get(k)]
+            R.record(inp, bad('seed:result-depends-on-a-sampler-constructed-earlier-in-the-process', None, {'differs_for': diff}))
+        elif r != base:
             diff = [k for k in base if base[k] != r.get(k)]
             R.record(inp, bad('seed:result-depends-on-PYTHONHASHSEED', None, {'differs_for': diff, 'hashseeds': [task['hashseeds'][0], hs]}))
         else:
@@ -215,6 +232,11 @@ def run_seedhist(task, R):
 
 
 def evaluate(inp):
+    if inp.get('kind') == 'seedhist-ref' and inp['hashseed'] == 'alien-first':
+        refs, ops, replay = seed_machine(inp['config'], [0])
+        if refs[0] != refs.get('alien-first', refs[0]):
+            return bad('seed:result-depends-on-a-sampler-constructed-earlier-in-the-process', None, {})
+        return Verdict(outcome='refs-agree')
     if inp.get('kind') == 'seedhist-ref':
         refs, ops, replay = seed_machine(inp['config'], [0, inp['hashseed']])
         if refs[0] != refs[inp['hashseed']]:
